@@ -274,7 +274,7 @@ def table():
     for r in rs:
         cnt[r["status"]] = cnt.get(r["status"], 0) + 1
     out = ["# Mutation self-test (tools/mutate.py)", "",
-           "Token-level mutants of /repo/src (relational / arithmetic / logical / bit operator swaps, integer literals +-1, true<->false; round 3: `if C` -> `if !(C)`, `if false && (C)`, `if true || (C)`), sampled per file (seeds 1-3; seed 4: every candidate in poll.rs, types.rs and the two packet.rs files).",
+           "Token-level mutants of /repo/src (relational / arithmetic / logical / bit operator swaps, integer literals +-1, true<->false; round 3: `if C` -> `if !(C)`, `if false && (C)`, `if true || (C)`), sampled per file (seeds 1-3; seed 4: up to 160 candidates per file in poll.rs, types.rs and the two packet.rs files).",
            "Only mutants that build and pass the pinned 73-test suite (`survivors`) are run against the checks that cover their file.", "",
            "| outcome | count |", "|---|---|"]
     for k in sorted(cnt):
